@@ -21,7 +21,7 @@ address const SA = address(address_v4(0x0a000002));
 
 enum { K_TIMER, K_CONNECT, K_REFUSED, K_READ, K_WAITREAD, K_WRITE, K_ACCEPT0, K_ACCEPT1, K_ACCEPT2,
 	K_URECVFROM, K_URECV, K_UWAITR, K_UWAITW, K_RESOLVE, NKIND };
-enum { I_NONE, I_CANCEL, I_CLOSE, I_DESTROY, I_SUPERSEDE, I_THROW, I_SUPERSEDE_OTHER, NINT };
+enum { I_NONE, I_CANCEL, I_CLOSE, I_DESTROY, I_SUPERSEDE, I_THROW, I_SUPERSEDE_OTHER, I_MOVE, NINT };
 
 struct rec
 {
@@ -137,6 +137,15 @@ void intervene()
 			// a new operation of the same kind while one is outstanding (sockets and acceptors; a timer is re-armed)
 			if (g_kind == K_RESOLVE || g_kind == K_CONNECT || g_kind == K_REFUSED) { CALL(g_kind == K_RESOLVE ? g_res->cancel() : g_cli->cancel(ec)); }
 			else start_op(1);
+			break;
+		case I_MOVE:
+			// move the object into a new one and destroy the source: the outstanding operation travels along
+			if (g_kind == K_TIMER) { CALL(asio::high_resolution_timer* n = new asio::high_resolution_timer(std::move(*g_timer)); delete g_timer; g_timer = n); }
+			else if (is_tcp_cli) { CALL(tcp::socket* n = new tcp::socket(std::move(*g_cli)); delete g_cli; g_cli = n); }
+			else if (is_tcp_srv) { CALL(tcp::socket* n = new tcp::socket(std::move(*g_srv)); delete g_srv; g_srv = n); }
+			else if (is_acc) { CALL(tcp::acceptor* n = new tcp::acceptor(std::move(*g_acc)); delete g_acc; g_acc = n); }
+			else if (is_udp) { CALL(udp::socket* n = new udp::socket(std::move(*g_usock)); delete g_usock; g_usock = n); }
+			else { CALL(tcp::resolver* n = new tcp::resolver(std::move(*g_res)); delete g_res; g_res = n); }
 			break;
 		case I_THROW:
 			g_throw_next = true;
@@ -282,7 +291,7 @@ extern "C" int harness_main()
 			vp_assert(!r.inline_call, 10);               // never from inside an initiating call
 			vp_assert(r.invoked <= 1, 11);               // at most once
 			vp_assert(!r.after_destroy, 12);             // never after being released
-			bool const hit = g_intervened && g_intervention != I_THROW && g_intervention != I_NONE && (i == 0);
+			bool const hit = g_intervened && g_intervention != I_THROW && g_intervention != I_NONE && g_intervention != I_MOVE && (i == 0);
 			if (hit)
 			{
 				// cancelled / closed / destroyed / superseded: exactly once, operation_aborted unless already completed
@@ -291,6 +300,15 @@ extern "C" int harness_main()
 				//  in that same instant with its own result)
 				if (r.invoked_before_intervention == 0 && r.invoked == 1)
 					vp_assert((r.ec == E_ABORTED) | (r.t == g_t_intervention), 14);
+			}
+			if (g_intervened && g_intervention == I_MOVE && i == 0)
+			{
+				// moved: the operation goes on as if nothing had happened - it is not aborted, and where the awaited
+				// event comes by itself (or is fed) it completes
+				bool const self = g_kind == K_TIMER || g_kind == K_CONNECT || g_kind == K_REFUSED || g_kind == K_RESOLVE;
+				bool const fed = feed && (g_kind == K_READ || g_kind == K_WAITREAD || (g_kind >= K_ACCEPT0 && g_kind <= K_ACCEPT2) || (g_kind >= K_URECVFROM && g_kind <= K_UWAITR));
+				if (self || fed) vp_assert(r.invoked == 1, 23);
+				if (r.invoked == 1) vp_assert(r.ec != E_ABORTED, 24);
 			}
 			// not silently discarded: either invoked, or still held by the object
 			if (r.invoked == 0) vp_assert(!r.destroyed, 15);
